@@ -363,34 +363,36 @@ Print Assumptions C12_full_nodup_holds.
 
 (* ==== the remaining roots (Hier/TraceRoots.v, Proofs/HierRoots.v): a COLLECTION of roots, each a
         hierarchical reference, a netlist, a library, a definition, an instance or a plain port / cable /
-        pin / wire; `recursive`; `patterns` (pat = the predicate "some pattern selects this name").
+        pin / wire; `recursive`; `patterns`: pat = "some pattern selects this name" (name map: absolute
+        patterns by lookup), dpat = "some pattern matches this name" (references found directly, since
+        fix 1630eaa of the former finding C13-K6; dm = the resulting test on a reference, direct_match).
         An entry of the work list is (marked bypass?, reference). ==== *)
 
 (* in ANY heap, for every selection, recursive flag, patterns and collection of roots, an answer never
    repeats a reference *)
-Theorem C12_roots_hwires_no_duplicates : forall s x r pat usum roots l,
-  get_hwires_roots s x r pat usum roots = Some l -> NoDup l.
+Theorem C12_roots_hwires_no_duplicates : forall s x r pat dpat usum roots l,
+  get_hwires_roots s x r pat dpat usum roots = Some l -> NoDup l.
 Proof. exact get_hwires_roots_nodup. Qed.
 
-Theorem C12_roots_hcables_no_duplicates : forall s x r pat usum roots l,
-  get_hcables_roots s x r pat usum roots = Some l -> NoDup l.
+Theorem C12_roots_hcables_no_duplicates : forall s x r pat dpat usum roots l,
+  get_hcables_roots s x r pat dpat usum roots = Some l -> NoDup l.
 Proof. exact get_hcables_roots_nodup. Qed.
 
-Theorem C12_roots_hpins_no_duplicates : forall s r pat roots l,
-  get_hpins_roots s r pat roots = Some l -> NoDup l.
+Theorem C12_roots_hpins_no_duplicates : forall s r pat dpat roots l,
+  get_hpins_roots s r pat dpat roots = Some l -> NoDup l.
 Proof. exact get_hpins_roots_nodup. Qed.
 
-Theorem C12_roots_hports_no_duplicates : forall s r pat roots l,
-  get_hports_roots s r pat roots = Some l -> NoDup l.
+Theorem C12_roots_hports_no_duplicates : forall s r pat dpat roots l,
+  get_hports_roots s r pat dpat roots = Some l -> NoDup l.
 Proof. exact get_hports_roots_nodup. Qed.
 
 (* netlist root, INSIDE (the default selection), recursive: every hierarchical wire of the design below
    the top instance (the enumeration of C11) whose name relative to the top the patterns select, each
    once. With the default pattern that is every hierarchical wire that has a name. *)
-Theorem C12_roots_netlist_recursive : forall s n t pat usum,
+Theorem C12_roots_netlist_recursive : forall s n t pat dpat usum,
   Inv1a s -> WFk s -> acyclic s ->
   kind_of s n = Some KNetlist -> top s n = Some t -> is_valid s [t] = true ->
-  exists l, get_hwires_roots s SInside true pat usum [RObj (QId n)] = Some l /\ NoDup l /\
+  exists l, get_hwires_roots s SInside true pat dpat usum [RObj (QId n)] = Some l /\ NoDup l /\
     (forall h, In h l <->
        (exists w c x p, h = w :: c :: x :: p /\ is_rpath s t (x :: p) /\
                         In c (cables_of s x) /\ In w (kids s RWires c)) /\
@@ -398,65 +400,67 @@ Theorem C12_roots_netlist_recursive : forall s n t pat usum,
 Proof. exact get_hwires_roots_netlist_recursive. Qed.
 
 (* netlist root, any `recursive`: the model of the collection agrees with the netlist query of C11 *)
-Theorem C12_roots_netlist_is_C11_enumeration : forall s n t r pat usum l0,
+Theorem C12_roots_netlist_is_C11_enumeration : forall s n t r pat dpat usum l0,
   kind_of s n = Some KNetlist -> top s n = Some t -> is_valid s [t] = true ->
   get_hwires_netlist s n r = Some l0 ->
-  exists l, get_hwires_roots s SInside r pat usum [RObj (QId n)] = Some l /\ NoDup l /\
+  exists l, get_hwires_roots s SInside r pat dpat usum [RObj (QId n)] = Some l /\ NoDup l /\
             (forall h, In h l <-> In h l0 /\ name_ok s pat (0, h) = true).
 Proof. exact get_hwires_roots_netlist_INSIDE. Qed.
 
 (* a reference to a hierarchical instance that goes through the name map (handed in as a reference),
    INSIDE, in any heap: the wires of its cell (and below it when recursive) whose name RELATIVE TO
    THAT INSTANCE the patterns select *)
-Theorem C12_roots_instance_reference_inside : forall s r pat usum it rest l0,
+Theorem C12_roots_instance_reference_inside : forall s r pat dm usum it rest l0,
   is_valid s (it :: rest) = true -> kind_of s it = Some KInstance ->
   hwires_below s r (it :: rest) = Some l0 ->
-  exists l, get_hwires_entries s SInside r pat usum [(false, it :: rest)] = Some l /\ NoDup l /\
+  exists l, get_hwires_entries s SInside r pat dm usum [(false, it :: rest)] = Some l /\ NoDup l /\
             (forall h, In h l <-> In h l0 /\ name_ok s pat (length rest, h) = true).
 Proof. exact get_hwires_entries_INSIDE_href. Qed.
 
 (* selection ALL over any collection: what the entries yield directly, and the connectivity classes of
    the wires on either side of every pin they hand to the closure - each once. ONE closure serves the
-   whole collection; patterns play no part. *)
+   whole collection; a reference is kept when the pattern test dm accepts it (filter law; before fix
+   1630eaa the patterns played no part). *)
 Theorem C12_roots_all_collection : forall s t,
   Inv1a s -> WFk s -> WFc s ->
-  forall n U r pat es y st nm,
+  forall n U r pat dm es y st nm,
   acyclic s -> top s n = Some t -> all_hwires s n = Some U ->
   collect (hw_entry s SAll r) es = Some (y, st, nm) ->
   (forall a, In a st -> hpin_occ s t a) ->
-  exists l, get_hwires_entries s SAll r pat (pin_weight s U) es = Some l /\ NoDup l /\
-            (forall b, In b l <-> In b y \/
-                                  exists a x, In a st /\ In x (nb_sel s SAll a) /\ Conn.conn s t x b).
+  exists l, get_hwires_entries s SAll r pat dm (pin_weight s U) es = Some l /\ NoDup l /\
+            (forall b, In b l <-> dm b = true /\
+                                  (In b y \/
+                                   exists a x, In a st /\ In x (nb_sel s SAll a) /\ Conn.conn s t x b)).
 Proof. exact get_hwires_entries_ALL. Qed.
 
 (* union law: searching two collections at once = the union of the two answers *)
 Theorem C12_roots_all_union : forall s t,
   Inv1a s -> WFk s -> WFc s ->
-  forall n U r pat es1 es2 y1 st1 nm1 y2 st2 nm2,
+  forall n U r pat dm es1 es2 y1 st1 nm1 y2 st2 nm2,
   acyclic s -> top s n = Some t -> all_hwires s n = Some U ->
   collect (hw_entry s SAll r) es1 = Some (y1, st1, nm1) -> (forall a, In a st1 -> hpin_occ s t a) ->
   collect (hw_entry s SAll r) es2 = Some (y2, st2, nm2) -> (forall a, In a st2 -> hpin_occ s t a) ->
   exists l1 l2 l,
-    get_hwires_entries s SAll r pat (pin_weight s U) es1 = Some l1 /\
-    get_hwires_entries s SAll r pat (pin_weight s U) es2 = Some l2 /\
-    get_hwires_entries s SAll r pat (pin_weight s U) (es1 ++ es2) = Some l /\ NoDup l /\
+    get_hwires_entries s SAll r pat dm (pin_weight s U) es1 = Some l1 /\
+    get_hwires_entries s SAll r pat dm (pin_weight s U) es2 = Some l2 /\
+    get_hwires_entries s SAll r pat dm (pin_weight s U) (es1 ++ es2) = Some l /\ NoDup l /\
     (forall b, In b l <-> In b l1 \/ In b l2).
 Proof. exact get_hwires_entries_ALL_union. Qed.
 
 (* a hierarchical instance (marked or not: an Instance / Definition / Library root reaches it marked, a
    reference or the netlist unmarked), selection ALL: every wire at or below it, and the nets of the
-   wires attached - inside or outside - to every pin at or below it; ps = the instance paths at or
-   below it *)
+   wires attached - inside or outside - to every pin at or below it, filtered by the pattern test dm;
+   ps = the instance paths at or below it *)
 Theorem C12_roots_all_instance : forall s t,
   Inv1a s -> Inv2a s -> WFk s -> WFc s -> is_root s t ->
-  forall n U r pat bp x p,
+  forall n U r pat dm bp x p,
   acyclic s -> top s n = Some t -> all_hwires s n = Some U -> is_rpath s t (x :: p) ->
   exists l ps, walk s keep_all (depth_fuel s) (x :: p) = Some ps /\
     (forall q, In q ps <-> HierEnum.ext s keep_all (x :: p) q) /\
-    get_hwires_entries s SAll r pat (pin_weight s U) [(bp, x :: p)] = Some l /\ NoDup l /\
-    (forall b, In b l <->
-       (exists q, In q ps /\ In b (hwires_at s q)) \/
-       (exists q a y, In q ps /\ In a (hpins_at s q) /\ In y (nb_sel s SAll a) /\ Conn.conn s t y b)).
+    get_hwires_entries s SAll r pat dm (pin_weight s U) [(bp, x :: p)] = Some l /\ NoDup l /\
+    (forall b, In b l <-> dm b = true /\
+       ((exists q, In q ps /\ In b (hwires_at s q)) \/
+        (exists q a y, In q ps /\ In a (hpins_at s q) /\ In y (nb_sel s SAll a) /\ Conn.conn s t y b))).
 Proof. exact get_hwires_ALL_instance. Qed.
 
 (* the hypotheses are satisfiable: ex3 (a two-bit port crossed by two nets), the sub-instance as a
@@ -475,40 +479,58 @@ Example C12_roots_netlist_hypotheses_satisfiable_example :
 Proof. exact netlist_root_hypotheses_satisfiable. Qed.
 
 (* concrete answers on ex3 (vm_compute, Proofs/HierRoots.v): netlist root recursive / flat, a pattern
-   honoured from the netlist and ignored from an Instance root (what the code does: finding C13-K6),
-   an instance reference OUTSIDE, a collection of three roots *)
+   honoured from the netlist and - since fix 1630eaa - from an Instance root (full names) and from a
+   reference to a non-top instance under ALL (names relative to it), a collection of three roots *)
 Example C12_roots_example_netlist :
-  get_hwires_roots ex3 SInside true pat_any ex3_u [RObj (QId 0)]
+  get_hwires_roots ex3 SInside true pat_any pat_any ex3_u [RObj (QId 0)]
   = Some [[12; 11; 14]; [13; 11; 14]; [7; 6; 10; 14]; [8; 6; 10; 14]].
 Proof. exact ex3_roots_netlist_recursive. Qed.
 
 Example C12_roots_example_pattern_honoured_from_netlist :
-  get_hwires_roots ex3 SInside true (pat_exact name_1) ex3_u [RObj (QId 0)] = Some [[13; 11; 14]].
+  get_hwires_roots ex3 SInside true (pat_exact name_1) (pat_exact name_1) ex3_u [RObj (QId 0)] = Some [[13; 11; 14]].
 Proof. exact ex3_roots_netlist_pattern. Qed.
 
-Example C12_roots_example_pattern_ignored_from_instance :
-  get_hwires_roots ex3 SInside false (pat_exact name_1) ex3_u [RObj (QId 10)]
-  = Some [[7; 6; 10; 14]; [8; 6; 10; 14]].
-Proof. exact ex3_roots_instance_ignores_pattern. Qed.
+(* regression: the former witness of finding C13-K6 (the pattern "[1]" was ignored from the Instance
+   root 10: both wires of its cell came back). The wires are called "/[0]" "/[1]" in full: nothing *)
+Example C12_roots_example_pattern_from_instance_regression :
+  get_hwires_roots ex3 SInside false (pat_exact name_1) (pat_exact name_1) ex3_u [RObj (QId 10)] = Some [].
+Proof. exact ex3_roots_instance_pattern_regression. Qed.
+
+Example C12_roots_example_pattern_honoured_from_instance :
+  get_hwires_roots ex3 SInside false (pat_exact name_s1) (pat_exact name_s1) ex3_u [RObj (QId 10)]
+  = Some [[8; 6; 10; 14]].
+Proof. exact ex3_roots_instance_pattern. Qed.
+
+Example C12_roots_example_pattern_relative_to_instance_reference :
+  exists l, get_hwires_roots ex3 SAll false (pat_exact name_1) (pat_exact name_1) ex3_u [RHref [10; 14]] = Some l /\
+            length l = 2 /\ In [8; 6; 10; 14] l /\ In [13; 11; 14] l.
+Proof. exact ex3_roots_href_all_pattern. Qed.
 
 Example C12_roots_example_collection :
-  exists l, get_hwires_roots ex3 SInside true pat_any ex3_u [RHref [10; 14]; RObj (QId 0); RObj (QId 7)] = Some l /\
+  exists l, get_hwires_roots ex3 SInside true pat_any pat_any ex3_u [RHref [10; 14]; RObj (QId 0); RObj (QId 7)] = Some l /\
             length l = 4 /\ NoDup l.
 Proof. exact ex3_roots_collection. Qed.
 
 (* the collection model restricted to ONE reference that is not an instance is the single-reference
-   model of Hier/Trace.v (equality of the answers, any heap, any selection / patterns / mark): every
+   model of Hier/Trace.v followed by the pattern test on the references found (any heap, any selection
+   / patterns / mark); with patterns that accept everything (the default) the answers are equal: every
    theorem above about wire / pin / port / cable starts speaks about get_hwires_roots [RHref ..] too *)
-Theorem C12_roots_single_reference_agrees : forall s x r pat usum obj,
+Theorem C12_roots_single_reference_agrees : forall s x r pat dpat usum obj,
   head_not_instance s obj ->
-  get_hwires_roots s x r pat usum [RHref obj] = get_hwires s x r usum obj.
+  get_hwires_roots s x r pat dpat usum [RHref obj]
+  = option_map (filter (direct_match s dpat [RHref obj])) (get_hwires s x r usum obj).
 Proof. exact get_hwires_roots_href_single. Qed.
+
+Theorem C12_roots_single_reference_agrees_default_patterns : forall s x r pat dm usum bp obj,
+  head_not_instance s obj -> (forall h, dm h = true) ->
+  get_hwires_entries s x r pat dm usum [(bp, obj)] = get_hwires s x r usum obj.
+Proof. exact get_hwires_entries_single_all. Qed.
 
 Theorem C12_roots_all_from_wire_reference : forall s t,
   Inv1a s -> Inv2a s -> WFk s -> WFc s -> is_root s t ->
-  forall n U pat x, acyclic s -> top s n = Some t -> all_hwires s n = Some U -> hwire_occ s t x ->
-  exists l, get_hwires_roots s SAll false pat (pin_weight s U) [RHref x] = Some l /\
-            (forall b, In b l <-> Conn.conn s t x b).
+  forall n U pat dpat x, acyclic s -> top s n = Some t -> all_hwires s n = Some U -> hwire_occ s t x ->
+  exists l, get_hwires_roots s SAll false pat dpat (pin_weight s U) [RHref x] = Some l /\
+            (forall b, In b l <-> Conn.conn s t x b /\ direct_match s dpat [RHref x] b = true).
 Proof. exact get_hwires_roots_ALL_wire. Qed.
 
 (* ---- YIELD ORDER where the design determines it (one netlist / instance-reference root through the
@@ -538,16 +560,19 @@ Proof. exact ex3_ordered. Qed.
 
 (* an Instance handed in as a plain element (INSIDE, not recursive): the wires of its cell at every
    occurrence of the instance - the valid instance paths ending in it, below the top instance of
-   whichever netlist (the occurrences of C11_hrefs_of_instances) - each once; whatever the patterns *)
-Theorem C12_roots_instance_element : forall s x pat usum,
+   whichever netlist (the occurrences of C11_hrefs_of_instances) - whose FULL hierarchical name some
+   pattern matches, each once (filter law; before fix 1630eaa: whatever the patterns, finding C13-K6) *)
+Theorem C12_roots_instance_element : forall s x pat dpat usum,
   Inv1a s -> Inv2a s -> WFk s -> acyclic s -> kind_of s x = Some KInstance ->
-  exists l, get_hwires_roots s SInside false pat usum [RObj (QId x)] = Some l /\ NoDup l /\
-    (forall h, In h l <-> exists p, (exists t, is_path s t p) /\ hd_error p = Some x /\ In h (hwires_at s p)).
+  exists l, get_hwires_roots s SInside false pat dpat usum [RObj (QId x)] = Some l /\ NoDup l /\
+    (forall h, In h l <->
+       (exists p, (exists t, is_path s t p) /\ hd_error p = Some x /\ In h (hwires_at s p)) /\
+       name_ok s dpat (0, h) = true).
 Proof. exact get_hwires_roots_instance_element. Qed.
 
 Example C12_roots_instance_element_hypotheses_satisfiable_example :
   Inv1a ex3 /\ Inv2a ex3 /\ WFk ex3 /\ acyclic ex3 /\ kind_of ex3 10 = Some KInstance /\
-  get_hwires_roots ex3 SInside false pat_any ex3_u [RObj (QId 10)] = Some [[7; 6; 10; 14]; [8; 6; 10; 14]].
+  get_hwires_roots ex3 SInside false pat_any pat_any ex3_u [RObj (QId 10)] = Some [[7; 6; 10; 14]; [8; 6; 10; 14]].
 Proof. exact ex3_instance_element_hypotheses. Qed.
 
 (* ---- kept as a statement, not proved: (a) from a hierarchical instance with selection ALL the answer is
@@ -560,12 +585,12 @@ Proof. exact ex3_instance_element_hypotheses. Qed.
         for most roots: hpin_search and the expansion of Definition / Instance roots are Python sets). ---- *)
 Definition C12_roots_full : Prop := forall s t,
   Inv1a s -> Inv2a s -> WFk s -> WFc s -> is_root s t ->
-  forall n U r pat bp x p,
+  forall n U r pat dm bp x p,
   acyclic s -> top s n = Some t -> all_hwires s n = Some U -> is_rpath s t (x :: p) ->
-  exists l, get_hwires_entries s SAll r pat (pin_weight s U) [(bp, x :: p)] = Some l /\ NoDup l /\
-    (forall b, In b l <->
-       (exists q w, HierEnum.ext s keep_all (x :: p) q /\ In w (hwires_at s q) /\ Conn.conn s t w b) \/
-       (exists a y, In a (hpins_at s (x :: p)) /\ In y (nb_sel s SAll a) /\ Conn.conn s t y b)).
+  exists l, get_hwires_entries s SAll r pat dm (pin_weight s U) [(bp, x :: p)] = Some l /\ NoDup l /\
+    (forall b, In b l <-> dm b = true /\
+       ((exists q w, HierEnum.ext s keep_all (x :: p) q /\ In w (hwires_at s q) /\ Conn.conn s t w b) \/
+        (exists a y, In a (hpins_at s (x :: p)) /\ In y (nb_sel s SAll a) /\ Conn.conn s t y b))).
 Print Assumptions C12_roots_hwires_no_duplicates.
 Print Assumptions C12_roots_hcables_no_duplicates.
 Print Assumptions C12_roots_hpins_no_duplicates.
@@ -583,3 +608,5 @@ Print Assumptions C12_roots_all_from_wire_reference.
 Print Assumptions C12_order_pattern_loop_elements.
 Print Assumptions C12_order_answer_elements.
 Print Assumptions C12_roots_instance_element.
+Print Assumptions C12_roots_single_reference_agrees_default_patterns.
+Print Assumptions C12_roots_example_pattern_relative_to_instance_reference.
